@@ -159,15 +159,18 @@ PROPS["C01"] = dict(
 
 PROPS["C02"] = dict(
     engine="netsim", level="exploration",
-    quick=dict(runs=16000, workers=16, stall_s=180),
-    thorough=dict(budget_s=900, workers=16, stall_s=300),
-    rule="one evaluation = one seeded run of the C01 world under the statement's fault model: a bounded number (1-6) of drops of non-RST packets of the "
+    quick=dict(runs=16000, workers=16, stall_s=180, variants=["", "", "", "dropenum"]),
+    thorough=dict(budget_s=900, workers=16, stall_s=300, variants=["", "", "", "dropenum"]),
+    rule="(three quarters of the workers) one evaluation = one seeded run of the C01 world under the statement's fault model: a bounded number (1-6) of drops of non-RST packets of the "
          "exchange (handshake, data, pure ACK, window update, FIN), no network delay (whatever is in flight arrives before the clock moves), all close "
          "orders (one-sided and simultaneous Shutdown, half-close then more data, Close with and without unread data, Close during handshake), reader "
          "stalls; then a fault-free drain of up to 400 simulated seconds (RFC 6298 back-off to the 60 s cap plus 63 s of handshake) and, for anything "
-         "unfinished, 3 more simulated hours to tell 'permanently quiet' from 'slow'. non-trivial = a fault fired and a retransmission was seen; distinct "
-         "= distinct event-log hash",
-    expected_probes=["dir_complete", "dir_failed-explicitly", "dir_reader-closed", "zero_window_advertised", "retransmission_seen", "known_finding_F3"],
+         "unfinished, 3 more simulated hours to tell 'permanently quiet' from 'slow'; (variant dropenum, a quarter of the workers) fault positions "
+         "instead of fault rates: one canonical exchange - the applications connect, write 0/1/3000/20000 and 0/2000 bytes, shut down or close, read "
+         "to the end; SACK on/off, Reno/CUBIC, default or 4 KB receive buffer - on a benign zero-delay wire that loses exactly the i-th, or the i-th "
+         "and the j-th, non-reset frame emitted in the run (i, j < 64, drawn per seed), judged by the same drain and oracles. non-trivial = a fault "
+         "fired and a retransmission was seen; distinct = distinct event-log hash",
+    expected_probes=["dir_complete", "dir_failed-explicitly", "dir_reader-closed", "zero_window_advertised", "retransmission_seen", "known_finding_F3", "enumerated_drops_fired"],
     real=NET_REAL, stubs=NET_STUBS, assumptions=NET_ASSUME + [
         "a reset is never retransmitted by TCP and is not among the packets the statement lists: resets are not dropped by this check"],
     hang_is_violation=True,
